@@ -34,6 +34,12 @@ def method_paths(ctx, cls, name):
     def run(it_):
         sv = Inst(ci, {}, "self")
         bound = it_.symbolic_args(m)
+        if it_._effective_decorators(m):
+            # the method is what its decorators make of it
+            from ..values import FuncV
+
+            pos = [bound[p] for p in m.params[1:] if p in bound]
+            return it_.call(FuncV(m, None, sv, m.cls), pos, {k: bound[k] for k in m.kwonly if k in bound}, m.node, None)
         return it_._exec_function(m, bound, sv, None, m.cls)
 
     return it, m, it.explore(run)
@@ -143,7 +149,7 @@ def family_rules(ctx, ids):
             n_methods += 1
             where = m.where()
             cons = f"{RES}{cls}.{name}"
-            stale_paths, cfg_writes, bad_reads, missing_out = [], [], [], []
+            stale_paths, cfg_writes, bad_reads, missing_out, altered_time = [], [], [], [], []
             foreign_writes = []
             for p in returns(paths):
                 tag = ", ".join(("" if c else "not ") + d[:70] for _k, c, d in p.decisions) or "straight"
@@ -171,6 +177,10 @@ def family_rules(ctx, ids):
                     for o in OUTPUTS:
                         if o not in written:
                             missing_out.append((o, tag))
+                    # what is kept as self.time is the caller's grid itself (not a shifted, sorted or re-based copy)
+                    for e in self_events(p, ("store_attr",)):
+                        if e.data["attr"] == "time" and it.to_nf(e.data["value"]) != nf.sym("time"):
+                            altered_time.append((nf.show(it.to_nf(e.data["value"]), 80), tag))
                     # reads of a previous run's results (symbols self.time / self.pseudopressure / self.recovery survive only if read before being written)
                     leftovers = set()
                     for e in p.events:
@@ -200,6 +210,11 @@ def family_rules(ctx, ids):
                 ctx.check(
                     not missing_out, ids["c"], cons + ":outputs overwritten", where,
                     "every normal path assigns both self.time and self.pseudopressure", signature="output not overwritten", missing=[f"{o} [{t}]" for o, t in missing_out[:4]],
+                )
+                ctx.check(
+                    not altered_time, ids["c"], cons + ":time stored as given", where,
+                    "self.time is the time grid that was simulated (the recovery interpolator and the plots pair it with the results)",
+                    signature="time altered", stored=[f"{v} [{t}]" for v, t in altered_time[:3]],
                 )
                 ctx.check(
                     not bad_reads, ids["c"], cons + ":no leftover state read", where,
